@@ -60,7 +60,7 @@ def annotate_half(R, func, loop, axis, other_loops):
     t, neg = strip_not(br.test)
     tc = chain(t)
     has, new = (br.orelse, br.body) if neg else (br.body, br.orelse)
-    R.check(tc == [cvar, axis], 'LABELLING', func, br, f'{slot}: guard tests the label that is written', f'if {cvar}.{axis}:', src(br.test))
+    R.check(tc == [cvar, axis], 'LABELLING', func, br, f'{slot}: guard tests the label that is written', f'if {cvar}.{axis}:', f'if {src(br.test)}:')
     apps = [s.value for s in has if isinstance(s, ast.Expr) and isinstance(s.value, ast.Call)]
     ok = False
     if len(apps) == 1 and len(has) == 1:
@@ -83,7 +83,9 @@ def annotate_half(R, func, loop, axis, other_loops):
     regs = [s.value for s in new if isinstance(s, ast.Expr) and isinstance(s.value, ast.Call) and isinstance(s.value.func, ast.Attribute)
             and s.value.func.attr in ('add', 'append') and len(s.value.args) == 1 and name_is(s.value.args[0], cvar)]
     if not regs:
-        R.bad('LABELLING', func, br, f'{slot}: labelled concept registered for finalisation', f'touched.add({cvar})', 'not registered: the label stays a list')
+        R.bad('LABELLING', func, br, f'{slot}: labelled concept registered for finalisation', f'touched.add({cvar})', 'not registered: the label stays a list') \
+            if not any(isinstance(n, ast.Call) and isinstance(n.func, ast.Name) for s_ in new for n in ast.walk(s_)) else \
+            R.unknown('LABELLING', func, br, f'{slot}: labelled concept registered for finalisation', 'registration may happen in a called helper')
         return
     touched = src(regs[0].func.value)
     # finalisation loop after this loop and before the next re-binding of touched
